@@ -166,7 +166,7 @@ def _c05_vm_sample(d, tier, coq, build, want=240):
 
 CONFIG = {
     "properties_file": "Properties/C05.v",
-    "proof_files": ["Base/Prelude.v", "Proofs/Verify.v", "Proofs/VerifyComplete.v", "Proofs/VerifyProxy.v", "Proofs/VerifyFuel.v", "Proofs/VerifyConc.v"],
+    "proof_files": ["Base/Prelude.v", "Proofs/Verify.v", "Proofs/VerifyComplete.v", "Proofs/VerifyProxy.v", "Proofs/VerifyFuel.v", "Proofs/VerifyConc.v", "Proofs/VerifyTop.v"],
     "model_files": ["Generated/GC05.v", "Model/Verify.v"],
     "extract": "XC05.v",
     "ml_main": "c05_main.ml",
@@ -179,7 +179,7 @@ CONFIG = {
         "io.LimitedReader, io.TeeReader, io.ReadFull (io.ReadAtLeast) and io.CopyBuffer of the Go standard library hand-modelled statement by statement; the destination writer never fails (disk-full / write errors are not modelled)",
         "os.File.ReadFrom falls back to io.Copy with a 32 KiB buffer for a *VerifyReader source (go1.26.8, linux); the theorems hold for every buffer size",
         "file system: os.CreateTemp names are unique, os.Rename is atomic and replaces the target (process runs as root, so a read-only target is replaced rather than refused); blobs/<alg>/<encoded> is injective in the digest string",
-        "file.Store: only plain file names (no path traversal, no unpack annotation, non-manifest media types); two different names never resolve to the same path",
+        "file.Store: path/filepath is not modelled, the resolved (cleaned) path of a name is an input of the model; names with path traversal, the unpack annotation and manifest media types are not generated; names that alias one path ARE generated and modelled: there the property fails (known finding file-alias-clobbers-visible, theorem C05_push_file_partial assumes path_free, C05_push_file_alias_refuted is the witness)",
         "concurrent pushes: the micro-step transition system of Model/Verify.v (cstep) is tied to the code by outcome membership: for races of 2-3 goroutines on one OCI layout the observed per-goroutine results + final blobs/ listing + ingest/ count must be one of the terminal outcomes of the exhaustive interleaving of the model (explore, proved to produce runs of the system only; Writes are explored unsplit because they touch only the thread's own ingest file -- this reduction is argued, not proved); individual file-system micro-steps are not observed (no syscall tracing); larger races and memory/limited stores are covered by the concurrent oracle only",
         "cas.Proxy is modelled for a cas.Memory cache (NewProxy / NewProxyWithLimit), a caller that issues any sequence of Read sizes and then Close, StopCaching on/off; the io.Pipe is synchronous, which makes the session deterministic (a Write returns the prefix the push consumed + the push error, the drain loop after a successful push consumes the rest); a caller that never calls Close, Proxy over other cache implementations and Proxy.Exists are not modelled",
     ],
